@@ -22,6 +22,15 @@ impl super::Interest for Interest {
     }
 }
 
+/// The mio token for a 64-bit event-loop token. The event loop looks the waiting coroutine up by
+/// the token an event carries, so the token must survive the round trip unchanged: keep all 64
+/// bits wherever `usize` can hold them (folding them to 32 bits made every readiness event miss
+/// its coroutine, which was then only woken by its periodic wait timeout).
+#[allow(clippy::cast_possible_truncation)]
+fn mio_token(token: u64) -> Token {
+    Token(usize::try_from(token).unwrap_or(((token >> 32) as u32 ^ token as u32) as usize))
+}
+
 impl super::Event for Event {
     fn get_token(&self) -> u64 {
         self.token().0 as u64
@@ -91,11 +100,7 @@ impl super::Selector<Interest, Event, Events> for Poller {
     fn do_register(&self, fd: c_int, token: u64, interests: Interest) -> std::io::Result<()> {
         self.registry().register(
             &mut SourceFd(&fd),
-            Token(
-                ((token >> 32) as u32 ^ token as u32)
-                    .try_into()
-                    .expect("token overflow"),
-            ),
+            mio_token(token),
             interests,
         )
     }
@@ -104,11 +109,7 @@ impl super::Selector<Interest, Event, Events> for Poller {
     fn do_reregister(&self, fd: c_int, token: u64, interests: Interest) -> std::io::Result<()> {
         self.registry().reregister(
             &mut SourceFd(&fd),
-            Token(
-                ((token >> 32) as u32 ^ token as u32)
-                    .try_into()
-                    .expect("token overflow"),
-            ),
+            mio_token(token),
             interests,
         )
     }
